@@ -215,7 +215,7 @@ def gates(c, tier):
               "direct:unregistered-generic-control", "direct:unregistered-filter-protocolerror", "direct:unregistered-auth-protocolerror",
               "direct:duplicate-refused", "direct:builtin-clash-refused", "custom-bytes-in-sequence", "registration-in-sequence",
               "caller-buffer-shared-between-sessions", "direct:multi-control-messages", "direct:same-number-different-form", "direct:nested-custom-filter", "direct:deepcopy-independence", "fresh-process-reference-runs",
-              "direct:late-registration-decodes-custom", "direct:free-id-registrations", "direct:fresh-session-after-foreign-failure", "direct:one-memoryview-two-sessions", "direct:subclass-of-known-control", "direct:same-id-different-class", "direct:errors-are-per-session", "direct:registration-order", "direct:custom-filter-derived-from-builtin",
+              "direct:late-registration-decodes-custom", "direct:free-id-registrations", "direct:fresh-session-after-foreign-failure", "direct:one-memoryview-two-sessions", "direct:subclass-of-known-control", "direct:same-id-different-class", "direct:errors-are-per-session", "direct:registration-order", "direct:control-type-strings", "direct:custom-filter-derived-from-builtin",
               "direct:fresh-session-after-many-unknown-codes", "direct:fresh-session-after-dropped-sessions"):
         if c.get(k, 0) == 0:
             out.append(f"never observed {k}")
@@ -820,6 +820,31 @@ def direct_checks():
         vio.append(("registration-leaked:control:subclass-of-known-type", f"first registration of a subclass of a known control on a fresh session refused: {e}"))
     except sl.LDAPError as e:
         vio.append(("registered-control-not-decoded:subclass-of-known-type", f"{type(e).__name__}: {e}"))
+    # control types are opaque strings: OIDs with a zero arc, arcs above 2^32, a descriptor-like name
+    for oid_ in ("1.2.826.0.1.3344810.2.3", "2.16.840.1.113730.3.4.0", "0.9.2342.19200300", "1.3.6.1.4.1.4294967297.1", "myControl"):
+        try:
+            @dataclasses.dataclass(frozen=True)
+            class _C(sl.LDAPControl):
+                control_type: str = dataclasses.field(init=False, repr=False, default=oid_)
+                value: t.Optional[bytes] = dataclasses.field(init=False, repr=False, default=None)
+                blob: bytes = b""
+
+                def get_value(self, options):
+                    return self.blob
+
+                @classmethod
+                def unpack(cls, control_type, critical, value, options):
+                    return cls(critical=critical, blob=value or b"")
+
+            sx = sl.LDAPServer()
+            sx.register_control(_C)
+            got_ = sx.receive(rfc4511.encode(("ExtendedRequest", 3, ("1.2.3", None), ((oid_, True, b"zero-arc", None),))))[0]
+            if type(got_.controls[0]) is not _C or got_.controls[0].blob != b"zero-arc":
+                vio.append(("registered-control-not-decoded:type-string", f"control type {oid_!r} registered, decoded as {got_.controls[0]!r}"))
+            else:
+                obs["direct:control-type-strings"] = obs.get("direct:control-type-strings", 0) + 1
+        except (sl.LDAPError, ValueError) as e:
+            vio.append(("registered-control-not-decoded:type-string", f"control type {oid_!r}: {type(e).__name__}: {e}"))
     # several custom filter types on one session, registered in descending, ascending and mixed order of their numbers
     for ids in ((50, 20, 35), (20, 35, 50), (35, 50, 20), (1030, 12, 31)):
         try:
